@@ -9,7 +9,10 @@ Stages
        whitespace variants), its polynomial is computed here with exact Gaussian-rational arithmetic
        (= the property's "polynomial the expression denotes"), and compared with
          (a) mps_parse_inline_poly_from_string (exact mpq coefficients)      -> property predicate
-         (b) the extracted Coq model: lex + parse_ref + denote (+ formal-poly model)  -> correspondence
+         (b) the extracted Coq model, both readings of every string: lex + parse_ref + denote (+ formal-poly
+             model) AND the pipeline as generated (flex token names -> bison's imported table run by the yacc
+             skeleton model -> grammar actions on the formal-polynomial model); the driver prints LRDIFF /
+             FPDIFF when they differ                                              -> correspondence
      ill-formed strings are produced by construction (mutation classes) and must give ERR in both.
 
 Language decisions (see coq/Inline/InlineModel.v header): "1/2" is one rational-constant token and '/'
@@ -259,6 +262,57 @@ def cancelling(rng):
     return rng.choice(forms)
 
 
+def sparse_product(rng):
+    """operands of operator* / '^' with interior zero entries (stale degree fields), partial and total
+    cancellation inside the double loop, and leading-zero trimming after the last diagonal"""
+    X = ('x',)
+    def xp(k): return ('pow', X, k) if k != 1 else X
+    def sp():
+        a, b = rng.choice([2, 3, 4, 5, 7]), rng.choice([0, 1, 2])
+        c = rng.choice([lit("1"), lit("2"), lit("3/4"), ilit("1"), lit("0.5"), ilit("3/2")])
+        t = (rng.choice(['add', 'sub']), xp(a), ('mul', c, xp(b)) if b else c)
+        if rng.random() < 0.3: t = ('add', t, ('mul', lit("0"), xp(a + 1)))        # a trailing zero term, trimmed
+        if rng.random() < 0.2: t = ('sub', t, xp(a))                                # the leading term cancels
+        return t
+    p, q = sp(), sp()
+    forms = [('mul', p, q), ('pow', p, rng.choice([2, 3, 4])), ('mul', ('mul', p, q), sp()),
+             ('sub', ('mul', ('add', X, lit("1")), ('sub', X, lit("1"))), ('sub', xp(2), lit("1"))),
+             ('mul', ('sub', p, p), q), ('pow', ('mul', ('add', X, ilit("1")), ('sub', X, ilit("1"))), rng.choice([2, 3])),
+             ('sub', ('mul', p, q), ('mul', q, p)), ('pow', ('sub', xp(3), xp(3)), rng.choice([0, 1, 2])),
+             ('mul', ('pow', p, 0), q), ('neg', ('pow', ('neg', p), 3))]
+    return rng.choice(forms)
+
+
+def flat_chain(rng):
+    """long operator chains without parentheses (10..40 operands): deep LR stacks, every adjacent pair of
+    operators out of + - * ^ and unary minus -- far beyond the length bound of the bounded table theorem"""
+    n = rng.randrange(10, 41)
+    def operand():
+        t = rand_leaf(rng) if rng.random() < 0.8 else ('x',)
+        while rng.random() < 0.3: t = ('pow', t, rng.choice([0, 1, 2, 3]))
+        while rng.random() < 0.25: t = ('neg', t)
+        return t
+    # build by precedence: split into sums of products
+    terms, cur = [], operand()
+    ops = []
+    for _ in range(n - 1):
+        o = rng.choice(['add', 'sub', 'mul', 'mul'])
+        b = operand()
+        if o == 'mul':
+            if cur[0] == 'neg' and False: pass
+            cur = ('mul', cur, b)
+        else:
+            terms.append(cur); ops.append(o); cur = b
+    terms.append(cur)
+    t = terms[0]
+    for o, b in zip(ops, terms[1:]): t = (o, t, b)
+    return t
+
+
+def n_tokens(text):
+    return len(re.findall(r"\d+(?:/\d+|\.\d*)?(?:[eE][+-]?\d+)?|\S", text))
+
+
 ILL_KINDS = ["dangling-operator", "leading-binary-operator", "doubled-operator", "unbalanced-paren", "empty-parens",
              "missing-operator", "non-integer-exponent", "imaginary-exponent", "negative-exponent", "parenthesised-exponent",
              "missing-exponent", "repeated-imaginary-unit", "stray-character", "zero-denominator", "slash-operator", "empty"]
@@ -450,7 +504,7 @@ def run(ctx):
             stale += ["Gen/GrammarGen", "InlineGrammarShape", "InlineLRCheck"]
         if restore_aut is not None:
             with open(AUT, "w") as f: f.write(restore_aut)
-            stale += ["Gen/AutomatonGen", "InlineLRCheck"]
+            stale += ["Gen/AutomatonGen", "InlineLRCheck", "InlineLRComplete", "InlineLRAll", "InlineYaccModel"]
         for base in stale:
             for ext in (".vo", ".glob", ".vok", ".vos"):
                 try: os.remove(os.path.join(VERIF, "coq", "Inline", base + ext))
@@ -485,6 +539,20 @@ def run(ctx):
         made += 1
         cases.append((show(t), t, "random"))
         if made % 3 == 0: cases.append((show(t, 0, rng, 0.2), t, "random-noisy"))
+    n_sp = ctx.pick(1500, 8000)
+    made = 0
+    while made < n_sp:
+        t = sparse_product(rng)
+        if degree_bound(t) > 60 or size(t) > 120 or coeff_bits(t) > 200: continue
+        made += 1
+        cases.append((show(t), t, "sparse-product"))
+    n_ch = ctx.pick(1500, 8000)
+    made = 0
+    while made < n_ch:
+        t = flat_chain(rng)
+        if degree_bound(t) > 60 or coeff_bits(t) > 200: continue
+        made += 1
+        cases.append((show(t), t, "flat-chain"))
     for s in LITS:
         cases.append((s, lit(s), "literal")); cases.append((s + "i", ilit(s), "literal"))
         cases.append(("x^2*" + s + "-" + s + "i", ('sub', ('mul', ('pow', ('x',), 2), lit(s)), ilit(s)), "literal"))
@@ -524,9 +592,13 @@ def run(ctx):
     ctx.log("ran %d strings through implementation and model" % len(texts))
 
     hist, errkinds, nontrivial, corr_bad = {}, {}, 0, 0
-    opshist = {}
+    opshist, modelkinds, tokhist = {}, {}, {}
     for (text, tree, kind), m, g in zip(cases, model, impl):
         hist[kind] = hist.get(kind, 0) + 1
+        modelkinds[m.split(" ")[0]] = modelkinds.get(m.split(" ")[0], 0) + 1
+        nt = n_tokens(text)
+        b = "<=6" if nt <= 6 else "7-12" if nt <= 12 else "13-24" if nt <= 24 else "25-48" if nt <= 48 else ">48"
+        tokhist[b] = tokhist.get(b, 0) + 1
         expect = fmt_poly(denote(tree)) if tree is not None else "ERR"
         if tree is not None:
             ops_of(tree, opshist)
@@ -538,7 +610,9 @@ def run(ctx):
         # (b) correspondence of the model with the property's own reading
         if m != expect:
             corr_bad += 1
-            ctx.violation("correspondence:model-vs-denotation:" + text[:60],
+            what_m = "lr-pipeline-model-vs-reference-model:" if m.startswith("LRDIFF") else \
+                     "formal-model-vs-denotation:" if m.startswith("FPDIFF") else "model-vs-denotation:"
+            ctx.violation("correspondence:" + what_m + text[:60],
                           "Coq model gives %s for %r, the tree denotes / the mutation class demands %s" % (m[:80], text, expect[:80]),
                           {"expr": text, "expect": expect, "model": m}, no_input=True)
             continue
@@ -561,7 +635,9 @@ def run(ctx):
            "rule": "distinct input strings that are not a single leaf (ill-formed strings count); every string goes through "
                    "the implementation, the extracted Coq model and (for trees) the exact denotation computed by the check",
            "samples": [cases[i][0] for i in sorted(rng.sample(range(len(cases)), min(12, len(cases))))],
-           "histogram": {"input_class": hist, "ast_nodes": opshist, "implementation_result": errkinds},
+           "histogram": {"input_class": hist, "ast_nodes": opshist, "implementation_result": errkinds,
+                         "model_result(OK/ERR = reference model and table-driven pipeline model agree)": modelkinds,
+                         "tokens_per_input(bounded table theorem covers <=6)": tokhist},
            "grammar_state": grammar_state, "bison_automaton_state": aut_state, "grammar_gen_sha1": hashlib.sha1(gen.encode()).hexdigest(),
            "model_vs_denotation_mismatches": corr_bad,
            "trusted_base": TRUSTED}
@@ -574,8 +650,10 @@ TRUSTED = ["Coq 8.16.1 kernel (full .vo build), axiom-free development (Print As
            "harness/c11_inline.c reading initial_mqp_r/i of the returned mps_monomial_poly; ASan+UBSan build of the snapshot",
            "bison: its LALR table is imported from `bison -y --xml` on every run (checks/c11_bison_report.py, unverified reader); trusted: "
            "the XML report describes the tables in the generated yacc-parser.c, and the yacc skeleton behaves like InlineLR.lr_loop; "
-           "agreement of that table with parse_ref is a kernel computation for all token lists of length <= 6, beyond that differential only",
-           "tokenizer.l is modelled by hand (InlineModel.lex), tied by the same differential",
+           "the table passes InlineLRSound.lr_check (kernel computation on the imported table) on every run",
+           "tokenizer.l is modelled by hand (InlineModel.lex, InlineLR.ylex with the token names), tied by the same differential",
+           "table-driven parser: accepted <=> derivable in the declarative grammar with that AST, proved for all lengths; not formalised: "
+           "completeness of the REFERENCE parser parse_ref for that grammar (so 'table accepts => parse_ref accepts' is bounded + differential)",
            "the check's own exact Gaussian-rational evaluation of generated trees (independent of the Coq model)"]
 ASSUME = ["well-formedness is judged by the language fixed in coq/Inline/InlineModel.v (exponent = integer literal, one 'i' per constant, "
           "'/' only inside a rational constant); integer-valued non-literal exponents (x^2.0, x^4/2) and the variable letters y,z,X,Y,Z are not judged",
